@@ -477,7 +477,12 @@ pub fn gen(purpose: Purpose, tier: Tier, seed: u64, index: u64) -> Workload {
         eof_style: u8::from(r.chance(0.3)),
         read_seed: r.next_u64(),
         faults: vec![],
-        hashq_cap: *r.pick(&[16usize, 16, 1, 2, 4]),
+        // the capacity knob is retired (see DESIGN.md section 12): always the shipped depth; the draw is
+        // kept so that the rest of the generated workload is unchanged
+        hashq_cap: {
+            let _ = r.pick(&[16usize, 16, 1, 2, 4]);
+            16
+        },
         probe_reads: vec![],
         len_hint_off: 0,
         cfg_block: None,
